@@ -81,11 +81,11 @@ OnEof(st, m) ==
               !.failed = IF st.cur # 0 /\ m.status[st.cur] = "failed"
                          THEN @ \o SelectSeq(Walk(m, st.cur), LAMBDA s : m.status[s] = "failed")
                          ELSE @]
-\* NOT the code: the smallest change that satisfies (P) -- collect every scenario that ended failed or in an error-class
-\* status, whatever the feature's own status (used by Rerun_MC to show that the clauses can be met)
+\* NOT the code: the smallest change that satisfies (P) -- `.has_failed()` instead of `== Status.failed` in both tests
+\* (the repair drafted in design/candidate_repairs.diff; used by Rerun_MC to show that the clauses can be met)
 OnEofRepaired(st, m) ==
    [st EXCEPT !.cur = 0,
-              !.failed = IF st.cur # 0
+              !.failed = IF st.cur # 0 /\ m.status[st.cur] \in FailedOrError
                          THEN @ \o SelectSeq(Walk(m, st.cur), LAMBDA s : m.status[s] \in FailedOrError)
                          ELSE @]
 \* def close(self): if self.failed_scenarios: open("w"); banner; one location per scenario
